@@ -535,10 +535,84 @@ def _canon_average(t: T) -> T:
     return mk("binop", "/", mk("call", sm, mk("binop", "*", x, w)), mk("call", sm, w))
 
 
+def _const_cond(c: T, x: T, v) -> Optional[bool]:
+    """truth of condition c when x is the number v, if that can be decided from literals alone (abs, comparisons,
+    arithmetic with literals); None otherwise"""
+    def val(t):
+        if t is x:
+            return v
+        if t.op == "const" and isinstance(t.args[0], (int, float)) and not isinstance(t.args[0], bool):
+            return t.args[0]
+        if t.op == "call" and t.args[0].op == "name" and t.args[0].args[0].split(".")[-1] in ("abs", "absolute", "fabs") \
+                and len(t.args) == 2:
+            a = val(t.args[1])
+            return None if a is None else abs(a)
+        if t.op == "unop" and t.args[0] == "-":
+            a = val(t.args[1])
+            return None if a is None else -a
+        if t.op == "binop" and t.args[0] in ("+", "-", "*", "/") and isinstance(t.args[1], T) and isinstance(t.args[2], T):
+            a, b = val(t.args[1]), val(t.args[2])
+            if a is None or b is None:
+                return None
+            try:
+                return {"+": a + b, "-": a - b, "*": a * b, "/": a / b}[t.args[0]]
+            except ZeroDivisionError:
+                return None
+        return None
+    if c.op == "cmp" and len(c.args) == 3 and c.args[0] in ("<", "<=", ">", ">=", "==", "!="):
+        a, b = val(c.args[1]), val(c.args[2])
+        if a is None or b is None:
+            return None
+        return {"<": a < b, "<=": a <= b, ">": a > b, ">=": a >= b, "==": a == b, "!=": a != b}[c.args[0]]
+    return None
+
+
+def _canon_select(f: T, args) -> Optional[T]:
+    """jnp.select([c1, c2, ..], [v1, v2, ..], default=d) is the first-match chain where(c1, v1, where(c2, v2, .. d)).
+    When every condition tests the default value x itself and an earlier replacement is a literal that no later condition
+    accepts, the chain equals the sequential guards  y1 = where(c1(x), v1, x); y2 = where(c2(y1), v2, y1); ..  the
+    repository writes, and is given that form."""
+    pos = [a for a in args if a.op != "kw"]
+    kws = {a.args[0]: a.args[1] for a in args if a.op == "kw"}
+    if len(pos) < 2 or not all(p_.op in ("list", "tuple") for p_ in pos[:2]) or len(pos[0].args) != len(pos[1].args) or \
+            not pos[0].args or set(kws) - {"default"}:
+        return None
+    conds, vals = list(pos[0].args), list(pos[1].args)
+    d = pos[2] if len(pos) > 2 else kws.get("default", const(0))
+    wh = name(f.args[0].rsplit(".", 1)[0] + ".where")
+    sequential = all(any(y is d for y in subterms(c_)) for c_ in conds)
+    if sequential:
+        for i, v_ in enumerate(vals):
+            if not (v_.op == "const" and isinstance(v_.args[0], (int, float)) and not isinstance(v_.args[0], bool)):
+                sequential = False
+                break
+            for c_ in conds[i + 1:]:
+                if _const_cond(c_, d, v_.args[0]) is not False:
+                    sequential = False
+    if sequential:
+        cur = d
+        for c_, v_ in zip(conds, vals):
+            c2 = substitute(c_, {d: cur}) if cur is not d else c_
+            cur = call(wh, c2, v_, cur)
+        return cur
+    cur = d
+    for c_, v_ in reversed(list(zip(conds, vals))):
+        cur = call(wh, c_, v_, cur)
+    return cur
+
+
 def call(f: T, *args: T) -> T:
     if f.op == "name" and f.args[0] == "builtins.getattr" and len(args) == 2 and args[1].op == "const" and \
             isinstance(args[1].args[0], str) and args[0].op != "kw":
         return mk("attr", args[0], args[1].args[0])         # getattr(obj, "name") is obj.name
+    if f.op == "name" and f.args[0].split(".")[-1] == "select" and f.args[0].split(".")[0] in ("jax", "numpy"):
+        r_ = _canon_select(f, args)
+        if r_ is not None:
+            return r_
+    if f.op == "name" and f.args[0].split(".")[-1] == "take" and f.args[0].split(".")[0] in ("jax", "numpy") and len(args) == 3 \
+            and args[0].op != "kw" and args[1].op != "kw" and args[2].op == "kw" and args[2].args[0] == "axis" and \
+            args[2].args[1].op == "const" and args[2].args[1].args[0] == 0:
+        return getitem(args[0], args[1])                    # take(x, i, axis=0) is x[i]
     t = mk("call", f, *args)
     t = _canon_where(t)
     return _canon_average(t) if t.op == "call" else t
@@ -1022,9 +1096,67 @@ class Evaluator:
             cond, pol = mk("cmp", "==", cond.args[1], cond.args[2]), not pol      # (a != b, False) is (a == b, True)
         return (cond, pol)
 
+    @staticmethod
+    def _truth_on_path(cond: T, path) -> Optional[bool]:
+        """truth of a branch condition given what the enclosing branches have already decided (propositional reasoning
+        over the very condition terms: not / and / or): the last arm of an exhaustive if / elif chain is taken"""
+        known: Dict[T, bool] = {}
+
+        def learn(c, pol) -> bool:
+            while isinstance(c, T) and c.op == "unop" and c.args[0] == "not" and isinstance(c.args[1], T):
+                c, pol = c.args[1], not pol
+            if not isinstance(c, T):
+                return False
+            if c.op == "cmp" and c.args[0] == "!=" and len(c.args) == 3:
+                c, pol = mk("cmp", "==", c.args[1], c.args[2]), not pol
+            changed = False
+            if known.get(c) is None:
+                known[c] = pol
+                changed = True
+            if c.op == "boolop" and len(c.args) >= 2:
+                ops = [a for a in c.args[1:] if isinstance(a, T)]
+                if (c.args[0] == "and" and pol) or (c.args[0] == "or" and not pol):
+                    for a in ops:
+                        changed |= learn(a, pol)
+                else:
+                    # and(..) is False / or(..) is True: if all operands but one are decided the other way, the last one
+                    want = c.args[0] == "or"
+                    vals = [ev(a) for a in ops]
+                    und = [a for a, v in zip(ops, vals) if v is None]
+                    if len(und) == 1 and all(v == (not want) for v in vals if v is not None):
+                        changed |= learn(und[0], want)
+            return changed
+
+        def ev(c) -> Optional[bool]:
+            if not isinstance(c, T):
+                return None
+            if c in known:
+                return known[c]
+            if c.op == "unop" and c.args[0] == "not":
+                v = ev(c.args[1])
+                return None if v is None else not v
+            if c.op == "cmp" and c.args[0] == "!=" and len(c.args) == 3:
+                v = ev(mk("cmp", "==", c.args[1], c.args[2]))
+                return None if v is None else not v
+            if c.op == "boolop" and len(c.args) >= 2:
+                vals = [ev(a) for a in c.args[1:] if isinstance(a, T)]
+                if c.args[0] == "and":
+                    return False if any(v is False for v in vals) else (True if all(v is True for v in vals) else None)
+                return True if any(v is True for v in vals) else (False if all(v is False for v in vals) else None)
+            return None
+        for _ in range(4):
+            ch = False
+            for c, pol in path:
+                ch |= learn(c, pol)
+            if not ch:
+                break
+        return ev(cond)
+
     def st_If(self, fr, st):
         cond = self.eval(fr, st.test)
         tv = self._truth(cond)
+        if tv is None and fr.path and cond.op in ("boolop", "unop", "cmp", "sym", "getitem", "attr", "call"):
+            tv = self._truth_on_path(cond, fr.path)
         if tv is not None:
             # a flag that is a literal here (e.g. a helper evaluated in place with relax=True): only that branch exists
             self.exec_block(fr, st.body if tv else st.orelse)
@@ -1263,7 +1395,48 @@ class Evaluator:
             return None
         return E, (its[0] if its else None), (its[0].args[0] if its else None)
 
+    @staticmethod
+    def _unroll_break_loop(st: ast.For) -> Optional[List[ast.stmt]]:
+        """for x in (e1, .., en): A; if c: B; break; C   [else: E]     (n <= 4, one top-level `if ..: ..; break`)
+        is the nest   x = e1; A; if c: B  else: C; x = e2; A; if c: B else: C; .. E   -- built as syntax and executed as
+        ordinary statements, so that "try the candidates in order, stop at the first good one" reads like the nested
+        ifs it replaces"""
+        import copy
+        if not isinstance(st.iter, (ast.Tuple, ast.List)) or not (0 < len(st.iter.elts) <= 4) or \
+                any(isinstance(e_, ast.Starred) for e_ in st.iter.elts):
+            return None
+        idx = [i for i, b_ in enumerate(st.body) if isinstance(b_, ast.If) and not b_.orelse and b_.body and
+               isinstance(b_.body[-1], ast.Break)]
+        if len(idx) != 1:
+            return None
+        k = idx[0]
+        n_break = sum(1 for b_ in st.body for n_ in ast.walk(b_) if isinstance(n_, (ast.Break, ast.Continue)))
+        if n_break != 1:
+            return None
+        A, IF, C = st.body[:k], st.body[k], st.body[k + 1:]
+
+        def iteration(j: int) -> List[ast.stmt]:
+            if j == len(st.iter.elts):
+                return copy.deepcopy(list(st.orelse))
+            head = [ast.Assign(targets=[copy.deepcopy(st.target)], value=copy.deepcopy(st.iter.elts[j]))]
+            for t_ in ast.walk(head[0].targets[0]):
+                if hasattr(t_, "ctx"):
+                    t_.ctx = ast.Store()
+            rest = copy.deepcopy(C) + iteration(j + 1)
+            branch = ast.If(test=copy.deepcopy(IF.test), body=copy.deepcopy(IF.body[:-1]) or [ast.Pass()],
+                            orelse=rest)
+            out = head + copy.deepcopy(A) + [branch]
+            for o_ in out:
+                ast.copy_location(o_, st)
+                ast.fix_missing_locations(o_)
+            return out
+        return iteration(0)
+
     def st_For(self, fr, st):
+        unrolled = self._unroll_break_loop(st)
+        if unrolled is not None:
+            self.exec_block(fr, unrolled)
+            return
         it = self.eval(fr, st.iter)
         # second pass over a list filled by an earlier loop:  for k, x in enumerate(L)  /  for x in L
         src, with_index = it, False
@@ -2142,6 +2315,17 @@ class Evaluator:
             return None
         if nm == "functools.partial" and args:
             return self._make_partial(fr, args[0], args[1:], kws, line)
+        if nm == "jax.lax.map" and len(args) == 2 and not kws:
+            # lax.map(f, xs) is the scan without a carry:  lax.scan(lambda c, x: (c, f(x)), None, xs)[1]
+            body = self._synth_closure(fr, "lambda map_c__, map_x__: (map_c__, map_f__(map_x__))", {"map_f__": args[0]}, line, "<lax.map>")
+            return getitem(self.apply(fr, name("jax.lax.scan"), [body, NONE, args[1]], [], line), const(1))
+        if nm == "jax.lax.fori_loop" and len(args) == 4 and not kws:
+            # fori_loop(lo, hi, body, init) is  lax.scan(lambda c, i: (body(i, c), None), init, arange(lo, hi))[0]
+            body = self._synth_closure(fr, "lambda fori_c__, fori_i__: (fori_f__(fori_i__, fori_c__), None)", {"fori_f__": args[2]}, line,
+                                       "<lax.fori_loop>")
+            lo, hi = args[0], args[1]
+            xs = call(name("jax.numpy.arange"), hi) if (lo.op == "const" and lo.args[0] == 0) else call(name("jax.numpy.arange"), lo, hi)
+            return getitem(self.apply(fr, name("jax.lax.scan"), [body, args[3], xs], [], line), const(0))
         if nm == "functools.reduce" and len(args) in (2, 3) and not kws:
             els = self.static_elements(args[1])
             if els is None:
@@ -2243,6 +2427,19 @@ class Evaluator:
                 return r_
             return None
         return None
+
+    def _synth_closure(self, fr, src: str, bindings: Dict[str, T], line: int, label: str) -> T:
+        """a closure written as source text (a lambda) whose free names are bound to the given terms"""
+        lam = ast.parse(src, mode="eval").body
+        for n_ in ast.walk(lam):
+            if hasattr(n_, "lineno"):
+                n_.lineno = line
+                n_.end_lineno = line
+        sub = Frame(self, fr.fi, fr.mod, fr, fr.label + "." + label)
+        sub.self_class = fr.self_class
+        sub.path, sub.loops = fr.path, fr.loops
+        sub.env.vars.update(bindings)
+        return self.make_closure(sub, lam, label)
 
     def _make_partial(self, fr, F: T, bound: List[T], kws: List[T], line: int) -> Optional[T]:
         """functools.partial(F, b1, .., k=v)  ->  the closure  lambda p1, ..: F(b1, .., p1, .., k=v)  over the parameters F
